@@ -242,6 +242,15 @@ def build(case):
         sp = pick()
         q = q.select(fn("Sum")(F(0, "function")).as_(same)).orderby(r["Field"](same, table=tbl(sp)))
         extra["orderby_same_name"] = (same, "S%d" % sp)
+        # window functions: partition and order keys (with and without an explicit direction) follow the statement's decision
+        an = lambda n: r["an." + n]  # noqa: E731
+        q = q.select(an("Rank")().over(F(pick(), "window-partition")).orderby(F(pick(), "window-order-desc"), order=r["Order"].desc).as_("rk"),
+                     an("Sum")(F(0, "window-arg")).over(F(0, "window-partition")).orderby(F(pick(), "window-order")).as_("rs"),
+                     an("RowNumber")().orderby(F(pick(), "window-order-asc"), order=r["Order"].asc).as_("rn"))
+        # columns given as strings belong to the first FROM source
+        s1_, s2_ = c.col(), c.col()
+        q = q.groupby(s1_).orderby(s2_)
+        exp += [(s1_, "S0", "groupby-str"), (s2_, "S0", "orderby-str")]
         # COUNT(<source>.*) keeps its source
         cs = pick()
         q = q.select(fn("Count")(r["Star"](tbl(cs))).as_("cnt_star"))
@@ -274,6 +283,10 @@ def build(case):
             x1, x2, x3, x4 = c.col(), c.col(), c.col(), c.col()
             q = q.from_(fu).join(fv).on(r["Field"](x1, table=fu) == r["Field"](x2, table=fv)).select(r["Field"](x3, table=fu), r["Field"](x4, table=fv))
             exp += [(x1, "FEED_U", "on"), (x2, "FEED_V", "on"), (x3, "FEED_U", "select"), (x4, "FEED_V", "select")]
+            # columns given as strings to the feeding SELECT belong to its first source, not to the insert target
+            x5, x6 = c.col(), c.col()
+            q = q.groupby(x5).orderby(x6)
+            exp += [(x5, "FEED_U", "groupby-str"), (x6, "FEED_U", "orderby-str")]
             multi = True  # (RETURNING follows the statement's decision; the column list and the upsert clauses stay bare)
         else:
             q = q.insert(1, 2)
